@@ -161,6 +161,7 @@ type Node struct {
 }
 
 type Cluster struct {
+	Variants int // transactions handed to a node as another valid copy (different witness)
 	N, F   int
 	Net    *chainkit.Net
 	Nodes  []*Node
@@ -441,6 +442,14 @@ func (c *Cluster) FireEarliest(excluded map[int]bool) (int, error) {
 func (c *Cluster) GiveTx(i int, tx *transaction.Transaction) error {
 	n := c.Nodes[i]
 	cp := *tx // fresh object per node as after decoding
+	if i%2 == 1 {
+		// odd nodes get ANOTHER valid copy of the transaction (same hash, the multisignature made by another subset of the
+		// signers), as it can reach different nodes from different relays
+		if v, ok := chainkit.WitnessVariant(tx, c.Net.Magic); ok {
+			cp = *v
+			c.Variants++
+		}
+	}
 	if err := n.BC.PoolTx(&cp); err != nil {
 		return err
 	}
